@@ -450,13 +450,13 @@ def _parse_schema(
         logical_type = parsed_schema.get("logicalType")
         if logical_type == "decimal":
             scale = parsed_schema.get("scale")
-            if scale and (not isinstance(scale, int) or scale < 0):
+            if scale is not None and (not isinstance(scale, int) or scale < 0):
                 raise SchemaParseException(
                     f"decimal scale must be a positive integer, not {scale}"
                 )
 
             precision = parsed_schema.get("precision")
-            if precision:
+            if precision is not None:
                 if not isinstance(precision, int) or precision <= 0:
                     raise SchemaParseException(
                         "decimal precision must be a positive integer, "
